@@ -391,7 +391,6 @@ def c11_prop():
         H(LIFE, "life_oneshot_bc_n4", "hold", replay=("life_oneshot_bc", 0), mask=P(11), est_s=400, timeout=3000, bounds="lifecycle oneshot-broadcast, 4 operations"),
         H(LIFE, "life_oneshot_bc_n4_check", "hold", replay=("life_oneshot_bc_check", 0), mask=P(11), est_s=400, timeout=3000,
           bounds="lifecycle oneshot-broadcast, 4 operations, MutexType=CheckLock"),
-        H(LIFE, "life_oneshot_bc_n6", "hold", replay=("life_oneshot_bc", 0), mask=P(11), est_s=2000, timeout=3400, bonus=True, bounds="lifecycle oneshot-broadcast, 6 operations (bonus)"),
     ]
     return {"quick": quick, "thorough": thorough,
             "functions": ["<GenericOneshotBroadcastReceiver as Clone>::clone", "<GenericOneshotBroadcastReceiver as Drop>::drop",
@@ -683,6 +682,20 @@ def _c16(prop, tier, seed):
 
 
 CUSTOM = {"C16": _c16}
+
+
+def _fix_life_estimates():
+    import re as _re
+    for _pid, _spec in PROPS.items():
+        for _tier in ("quick", "thorough"):
+            if not isinstance(_spec.get(_tier), list):
+                continue
+            for _j in _spec[_tier]:
+                _m = _re.search(r"::life::proofs::life_(?:witness_)?(?:c1[78]_)?(?:oneshot_bc|oneshot|state|mpmc)_n(\d)", _j["harness"])
+                if _m:
+                    _gb = {3: 9, 4: 14, 5: 18, 6: 24}.get(int(_m.group(1)), 10)
+                    _j["est_gb"] = max(float(_j.get("est_gb", 0)), _gb)
+                    _j["mem_gb"] = max(float(_j.get("mem_gb", 0)), 30)
 PROPS["C08"] = mpmc_prop("C08", 8, [(0, "sr", 0, 4), (1, "sr", 0, 4), (1, "tr", 0, 4), (0, "ca", 0, 4), (1, "ca", 0, 4), (1, "cl", 3, 5), (0, "cl", 3, 5), (2, "tr", 0, 4)],
                         extra_quick=MPMC_WITNESSES[:1] + [
                             H(LIFE, "life_mpmc_discard_c08", "hold", replay=("life_mpmc_discard", 0), mask=P(8), est_s=40,
@@ -1014,3 +1027,5 @@ DECODERS["mpmc_clear_noalloc"] = decode_raw
 DECODERS["semsh_scenario"] = decode_raw
 DECODERS["shared_mpmc_min"] = lambda cfg, script: ["shared channel(1): pre-filled=%s; send future polled; close()=%s; receive future polled; sender re-polled; try_receive" % (bool(script[0] & 1) if script else "?", bool(script[1] & 1) if len(script) > 1 else "?")]
 DECODERS["mpmc_handles"] = lambda cfg, script: [l.replace("a receive future is registered (pending) as observer", "no futures").replace("; re-poll the observer", "; probe closedness with try_receive/try_send") for l in decode_life(cfg, script)]
+
+_fix_life_estimates()
